@@ -8,6 +8,7 @@ import (
 
 	. "github.com/cube2222/octosql/execution"
 	"github.com/cube2222/octosql/octosql"
+	"github.com/cube2222/octosql/verifhook"
 )
 
 type OuterJoin struct {
@@ -141,6 +142,7 @@ receiveLoop:
 	for {
 		select {
 		case msg, ok := <-leftMessages:
+			verifhook.JoinRecv(s, 0, ok, msg.metadata, msg.err != nil)
 			if !ok {
 				leftDone = true
 				break receiveLoop
@@ -187,6 +189,7 @@ receiveLoop:
 			// TODO: Add backpressure
 
 		case msg, ok := <-rightMessages:
+			verifhook.JoinRecv(s, 1, ok, msg.metadata, msg.err != nil)
 			if !ok {
 				leftDone = false
 				break receiveLoop
@@ -256,6 +259,7 @@ receiveLoop:
 	}
 
 	for msg := range openChannel {
+		verifhook.JoinRecv(s, verifhook.Side(leftDone), true, msg.metadata, msg.err != nil)
 		if msg.err != nil {
 			return msg.err
 		}
@@ -281,6 +285,7 @@ receiveLoop:
 		}
 	}
 
+	verifhook.JoinRecv(s, verifhook.Side(leftDone), false, false, false)
 	if err := processRecordsUpTo(ctx, WatermarkMaxValue); err != nil {
 		return err
 	}
